@@ -249,6 +249,17 @@ def net_correspondence(res, tier, rng):
         b = [float(10 * (k + 1)) for k in range(lb)]
         glines.append('n%d SCHED NET diamond - - %s %d %d' % (i, vlib.streams([a, b]), cap, i % 6))
         mlines.append('n%d NET diamond 1 %d %s %s' % (i, cap, vlib.il(a), vlib.il(b)))
+    # helper.Change rebuilt from Duplicate / Buffered / Skip / Subtract with a buffer of b (b < k deadlocks on small capacities)
+    ktop = 3 if tier == 'quick' else 5
+    for n in range(0, 7 if tier == 'quick' else 10):
+        for k in range(0, ktop + 1):
+            for b in range(0, k + 2):
+                for cap in (0, 1, 2):
+                    i = len(cases)
+                    cases.append((n, 'k=%d,b=%d' % (k, b), cap))
+                    a = [float(2 ** j) for j in range(n)]
+                    glines.append('n%d SCHED NET change - - %s %d %d' % (i, vlib.streams([a, [float(k), float(b)]]), cap, i % 6))
+                    mlines.append('n%d NET change 1 %d %s %d,%d' % (i, cap, vlib.il(a), k, b))
     go, model = vlib.run_go(glines), vlib.run_model(mlines)
     bad = 0
     for i, c in enumerate(cases):
@@ -258,7 +269,7 @@ def net_correspondence(res, tier, rng):
         mvv = [int(x) for x in mo.split(',')] if mo.strip() not in ('', '-') else []
         if g['status'] != mv.strip() or (g['status'] == 'ok' and gv != mvv):
             bad += 1
-            res.violation({'broken': 'correspondence', 'name': 'NET diamond', 'case': {'kind': 'NET', 'name': 'diamond', 'ns': [], 'fs': [], 'streams': [], 'lens': list(c[:2]), 'equal': c[0] == c[1]},
+            res.violation({'broken': 'correspondence', 'name': 'NET diamond', 'case': {'kind': 'NET', 'name': 'diamond/change', 'ns': [], 'fs': [], 'streams': [], 'lens': [str(v) for v in c[:2]], 'equal': False},
                            'go_output': go.get('n%d' % i, '')[:200], 'model_output': m[:200],
                            'note': 'the Go helpers no longer behave like the machines of the network model'}, no_failing_input=(g['status'] == 'ok'))
     return len(cases), bad
